@@ -13,7 +13,15 @@ class CallsMixin:
         states = [(st, [], {})]
         for a in e.args:
             if isinstance(a, ast.Starred):
-                raise Unsupported("starred call argument")
+                # *args forwarding of the current function's own varargs (a static, python-level list of values)
+                nxt = []
+                for s1, pos, kw in states:
+                    for s2, v in self.ev(a.value, s1, d):
+                        if v.ty[0] != "pylist" or v.py is None:
+                            raise Unsupported("starred call argument that is not the forwarded *args")
+                        nxt.append((s2, pos + list(v.py), kw))
+                states = nxt
+                continue
             states = [(s2, pos + [v], kw) for s1, pos, kw in states for s2, v in self.ev(a, s1, d)]
         for k in e.keywords:
             if k.arg is None:      # **kwargs
@@ -950,6 +958,10 @@ class CallsMixin:
                 env[k] = v
             elif fn.args.kwarg is None:
                 raise Unsupported(f"unexpected keyword {k} for {fn.name}")
+        if fn.args.vararg is not None:
+            env[fn.args.vararg.arg] = V(("pylist",), py=list(pos[len(params):]))
+        if fn.args.kwarg is not None:
+            env[fn.args.kwarg.arg] = V(("kwdict",), py={k: v for k, v in kw.items() if k not in params})
         ndef = len(fn.args.defaults)
         for p, dflt in zip(params[len(params) - ndef:], fn.args.defaults):
             if p not in env:
